@@ -423,6 +423,47 @@ pub fn encrypt_open(r: u8, key_len: usize, compress: bool) -> DocSpec {
     families::rich(&mut rng, &families::RichOpts::all(), &layout)
 }
 
+/// text strings and dates: /Info with dates and text, an annotation with /M and /Contents, an
+/// embedded file with /Params dates, an outline title in UTF-16
+pub fn info_dates() -> DocSpec {
+    let mut b = Builder::new();
+    let info = b.add(Val::dict(vec![
+        ("Title", Val::Str(b"\xfe\xff\x00T\x00i".to_vec())),
+        ("Author", Val::Str(b"author".to_vec())),
+        ("CreationDate", Val::Str(b"D:20200102030405+01'30'".to_vec())),
+        ("ModDate", Val::Str(b"D:20210102030405Z".to_vec())),
+    ]));
+    let ef_stream = b.add_stream(
+        vec![("Type".into(), Val::name("EmbeddedFile")), ("Params".into(), Val::dict(vec![("Size", Val::Int(3)), ("CreationDate", Val::Str(b"D:2019".to_vec())), ("ModDate", Val::Str(b"D:20190203".to_vec()))]))],
+        b"abc".to_vec(),
+    );
+    let filespec = b.add(Val::dict(vec![("Type", Val::name("Filespec")), ("F", Val::Str(b"a.txt".to_vec())), ("UF", Val::Str(b"a.txt".to_vec())), ("EF", Val::dict(vec![("F", Val::r(ef_stream))]))]));
+    let ef_tree = b.add(Val::dict(vec![("Names", Val::Arr(vec![Val::Str(b"a.txt".to_vec()), Val::r(filespec)]))]));
+    let names = b.add(Val::dict(vec![("EmbeddedFiles", Val::r(ef_tree))]));
+    let outline_item = b.reserve();
+    let outlines = b.add(Val::dict(vec![("Type", Val::name("Outlines")), ("First", Val::r(outline_item)), ("Last", Val::r(outline_item)), ("Count", Val::Int(1))]));
+    b.put(outline_item, Val::dict(vec![("Title", Val::Str(b"\xfe\xff\x00O".to_vec())), ("Parent", Val::r(outlines))]));
+    let catalog = b.reserve();
+    let pages = b.reserve();
+    let page = b.reserve();
+    let annot = b.add(Val::dict(vec![
+        ("Type", Val::name("Annot")),
+        ("Subtype", Val::name("Text")),
+        ("Rect", rect(0, 0, 10, 10)),
+        ("Contents", Val::Str(b"note".to_vec())),
+        ("M", Val::Str(b"D:20220304050607-08'00'".to_vec())),
+        ("NM", Val::Str(b"id1".to_vec())),
+        ("P", Val::r(page)),
+    ]));
+    b.put(page, Val::dict(vec![("Type", Val::name("Page")), ("Parent", Val::r(pages)), ("MediaBox", rect(0, 0, 100, 100)), ("Resources", Val::dict(vec![])), ("Annots", Val::Arr(vec![Val::r(annot)])), ("LastModified", Val::Str(b"D:20230405".to_vec()))]));
+    b.put(pages, Val::dict(vec![("Type", Val::name("Pages")), ("Kids", Val::Arr(vec![Val::r(page)])), ("Count", Val::Int(1))]));
+    b.put(catalog, Val::dict(vec![("Type", Val::name("Catalog")), ("Pages", Val::r(pages)), ("Names", Val::r(names)), ("Outlines", Val::r(outlines))]));
+    let mut layout = Layout::classic();
+    layout.trailer = vec![("Info".into(), Val::r(info))];
+    let mut rng = Rng::new(1);
+    b.finish(catalog, &layout, &mut rng)
+}
+
 pub fn rich_all() -> DocSpec {
     let mut rng = Rng::new(7);
     families::rich(&mut rng, &families::RichOpts::all(), &Layout::classic())
@@ -444,6 +485,7 @@ pub fn all() -> Vec<(&'static str, DocSpec)> {
         ("encrypt_open_v4_objstm", encrypt_open(4, 16, true)),
         ("dag_pages", dag_pages()),
         ("annots", annots()),
+        ("info_dates", info_dates()),
         ("dag_trees", dag_trees()),
         ("long_chain", long_chain()),
         ("rich", rich_all()),
